@@ -77,12 +77,15 @@ def check_proofs(pid, spec):
     if not os.path.exists(prop_v):
         res["log"] = "missing " + prop_v
         return res
-    with Lock("coq"):
+    with Lock("coqgen"):
         if not os.path.exists(os.path.join(COQ, "Makefile")) or \
                 any(os.path.getmtime(v) > os.path.getmtime(os.path.join(COQ, "_CoqProject"))
                     for v in glob.glob(os.path.join(COQ, "*", "*.v"))):
             sh(["sh", "gen_project.sh"], cwd=COQ)
-        rc, out = sh(["timeout", "3000", "make", "-j16", "Properties/%s.vo" % pid], cwd=COQ)
+    # the builds of different properties touch disjoint targets (shared Base files are built by setup);
+    # a per-property lock keeps two runs of the same check apart without letting one slow proof block the rest
+    with Lock("coq_" + pid):
+        rc, out = sh(["timeout", "3000", "make", "-j8", "Properties/%s.vo" % pid], cwd=COQ)
         if rc != 0:
             res["log"] = out[-4000:]
             return res
@@ -141,9 +144,9 @@ def build_model(pid, force=False):
     with Lock("ocaml_" + pid):
         if not force and os.path.exists(out) and all(os.path.getmtime(s) <= os.path.getmtime(out) for s in src):
             return True, ""
-        with Lock("coq"):
+        with Lock("coq_" + pid):
             # the model's .vo files must exist
-            rc, o = sh(["timeout", "3000", "make", "-j16", "Properties/%s.vo" % pid], cwd=COQ)
+            rc, o = sh(["timeout", "3000", "make", "-j8", "Properties/%s.vo" % pid], cwd=COQ)
         rc, o = sh(["sh", os.path.join(ROOT, "ocaml", "build.sh"), pid])
         return rc == 0, o[-3000:]
 
